@@ -1,10 +1,45 @@
 """Generic machinery for the reference-order properties C08-C14: the universe of
 the ecosystem(s) is explored by TLC, the real Compare matrix is recorded, and TLC
 evaluates the reference operator (Dpkg.tla, Rpm.tla, ...) on every in-scope pair."""
-import random, json, os, concurrent.futures as cf
+import random, json, os, re, concurrent.futures as cf
 import vlib, orderdiag
 
-def run_ref(run, prop, ecos, caps, seeded_fn=None, extra_jobs_fn=None, shard=350, rule="", assumptions=()):
+# numbers at which a fixed-width representation, a packed key or a folded weight changes behaviour
+BOUNDARY = [9, 10, 255, 256, 999, 1000, 32767, 32768, 65535, 65536, 65537, 99999, 100000, 999999999, 1000000000, 1000000001,
+            2147483647, 2147483648, 4294967295, 4294967296, 4294967297, 20210530193627, 9007199254740992, 9007199254740993,
+            9223372036854775807, 9223372036854775808, 9223372036854775809, 9999999999999999998, 9999999999999999999,
+            18446744073709551615, 18446744073709551616, 18446744073709551617]
+_RUN = re.compile(r"[0-9]+")
+def boundary_jobs(U, ecos, rnd, quick, maxval=None):
+    """Same-template families: a universe member with one (sometimes two) of its digit runs replaced by
+    every boundary number, several templates per job so that families also meet each other."""
+    jobs = []
+    BOUNDARY = [b for b in globals()["BOUNDARY"] if maxval is None or b <= maxval]
+    for eco in ecos:
+        pool = [(t, p) for t, p in U[eco] if _RUN.search(t) and len(t) < 40]
+        if not pool: continue
+        for r in range(3 if quick else 24):
+            texts, part = [], []
+            for t, p in rnd.sample(pool, min(4, len(pool))):
+                runs = list(_RUN.finditer(t))
+                m = rnd.choice(runs)
+                m2 = rnd.choice(runs)
+                for b in BOUNDARY:
+                    texts.append(t[:m.start()] + str(b) + t[m.end():]); part.append(p)
+                if m2.start() != m.start():
+                    lo, hi = sorted([m, m2], key=lambda x: x.start())
+                    for b in rnd.sample(BOUNDARY, 6):
+                        for c in rnd.sample(BOUNDARY, 2):
+                            texts.append(t[:lo.start()] + str(b) + t[lo.end():hi.start()] + str(c) + t[hi.end():]); part.append(p)
+                texts.append(t); part.append(p)
+            seen = set(); tt = []; pp = []
+            for t, p in zip(texts, part):
+                if t not in seen:
+                    seen.add(t); tt.append(t); pp.append(p)
+            jobs.append({"k": "matrix", "eco": eco, "tag": "boundary", "texts": tt, "part": pp})
+    return jobs
+
+def run_ref(run, prop, ecos, caps, seeded_fn=None, extra_jobs_fn=None, shard=350, rule="", assumptions=(), boundary_max=None):
     quick = run.tier == "quick"
     exe = vlib.build_harness(run)
     U = vlib.universe(run, ecos)
@@ -23,6 +58,7 @@ def run_ref(run, prop, ecos, caps, seeded_fn=None, extra_jobs_fn=None, shard=350
             for r in range(len(mem) // shard):
                 blk = rnd.sample(mem, shard)
                 jobs.append({"k": "matrix", "eco": eco, "tag": "Ux", "texts": [t for t, _ in blk], "part": [p for _, p in blk]})
+    jobs += boundary_jobs(U, ecos, rnd, quick, maxval=boundary_max)
     if seeded_fn:
         jobs += seeded_fn(U, rnd, quick)
     if extra_jobs_fn:
